@@ -2,7 +2,7 @@
 (* C24 - unitary contexts reject non-unitary quantum operations.
 
    What is modelled.  A *case* is one small Guppy function: a unitary context
-   (decorator flags, a `with` item stack, or two nested `with` statements), at most
+   (decorator flags and/or up to three nested `with` statements, each with an item stack), at most
    one call site (callee kind + callee flags + argument mix + syntactic position)
    and at most one extra construct (loop, assignment, subscripted place).
    The checker (guppylang_internals/checker/unitary_checker.py: check_cfg_unitary /
@@ -22,8 +22,10 @@
      - Loop / Assignment / Subscript: the construct occurs and the context has Dagger;
      - accepted otherwise.
    Context flags: decorator keywords (unitary = all three), or for a `with` stack
-   Dagger iff the number of dagger items is odd, Control / Power iff present; a nested
-   `with` requires the union of both stacks.
+   Dagger iff the number of dagger items is odd, Control / Power iff present; a block
+   requires the union of the decorator flags and of all enclosing stacks.
+   Positions of the call include being an argument of another call - alone, after a
+   qubit argument, or before one (the checker must look into every argument).
    Accepted functions record FlagValue(flags) (Control=1, Dagger=2, Power=4, as in
    tys/ty.py UnitaryFlags) as `unitary` metadata of their FuncDefn.
 
@@ -52,17 +54,22 @@ StackFlags(s) == (IF Count(s, "dagger") % 2 = 1 THEN {"D"} ELSE {})
            \cup (IF Count(s, "power") > 0 THEN {"P"} ELSE {})
 
 \* ---- contexts -----------------------------------------------------------------
-Ctx(kind, deco, alias, outer, inner) ==
-    [kind |-> kind, deco |-> deco, alias |-> alias, outer |-> outer, inner |-> inner]
-DecoCtxs == {Ctx("deco", F, FALSE, <<>>, <<>>) : F \in SUBSET Flags}
-       \cup {Ctx("deco", Flags, TRUE, <<>>, <<>>)}          \* spelled `unitary=True`
-WithCtxs == {Ctx("with", {}, FALSE, <<>>, s) : s \in Stacks(MaxWith)}
-NestedCtxs == {Ctx("nested", {}, FALSE, o, s) : o \in Stacks(MaxOuter), s \in Stacks(MaxInner)}
-Ctxs == DecoCtxs \cup WithCtxs \cup NestedCtxs
+\* deco: decorator flags of the function; levels: item stacks of the nested `with`
+\* statements around the body, outermost first (<<>> = the body is the function body)
+Ctx(kind, deco, alias, levels) == [kind |-> kind, deco |-> deco, alias |-> alias, levels |-> levels]
+DecoCtxs == {Ctx("deco", F, FALSE, <<>>) : F \in SUBSET Flags}
+       \cup {Ctx("deco", Flags, TRUE, <<>>)}          \* spelled `unitary=True`
+WithCtxs == {Ctx("with", {}, FALSE, <<s>>) : s \in Stacks(MaxWith)}
+NestedCtxs == {Ctx("nested", {}, FALSE, <<o, s>>) : o \in Stacks(MaxOuter), s \in Stacks(MaxInner)}
+\* three stacked blocks, and blocks inside a decorated function (single items)
+DeepCtxs == {Ctx("deep", {}, FALSE, <<a, b, c>>) : a \in Stacks(1), b \in Stacks(1), c \in Stacks(1)}
+DecoWithCtxs == {Ctx("decowith", F, FALSE, <<a>>) : F \in (SUBSET Flags) \ {{}}, a \in Stacks(1)}
+           \cup {Ctx("decowith", F, FALSE, <<a, b>>) : F \in (SUBSET Flags) \ {{}}, a \in Stacks(1), b \in Stacks(1)}
+BaseCtxs == DecoCtxs \cup WithCtxs \cup NestedCtxs
+Ctxs == BaseCtxs \cup DeepCtxs \cup DecoWithCtxs
 
-CtxFlags(c) == CASE c.kind = "deco" -> c.deco
-                 [] c.kind = "with" -> StackFlags(c.inner)
-                 [] c.kind = "nested" -> StackFlags(c.outer) \cup StackFlags(c.inner)
+LevelFlags(c, n) == c.deco \cup UNION {StackFlags(c.levels[i]) : i \in 1..n}     \* requirement at depth n
+CtxFlags(c) == LevelFlags(c, Len(c.levels))
 
 \* ---- call sites ----------------------------------------------------------------
 \* kind: decl (guppy.declare with flags) / defn (guppy with flags) / h (std gate, all
@@ -70,7 +77,10 @@ CtxFlags(c) == CASE c.kind = "deco" -> c.deco
 \* barrier, state_result (always allowed) / none (no call in the body)
 \* args: q = one qubit, c = classical only, qc = qubit and classical, arr = array of qubits
 Call(kind, flags, args, pos) == [kind |-> kind, flags |-> flags, args |-> args, pos |-> pos]
-BoolPositions == {"stmt", "nested_arg", "if_cond", "while_cond", "ifexp_cond", "ifexp_arm", "boolop_cond"}
+\* pos: nested_arg = sole (classical) argument of another call; arg_after_qubit / arg_before_qubit =
+\* argument of a fully unitary call that also takes a qubit, after resp. before that qubit
+BoolPositions == {"stmt", "nested_arg", "arg_after_qubit", "arg_before_qubit", "if_cond", "while_cond",
+                  "ifexp_cond", "ifexp_arm", "boolop_cond"}
 Calls ==
     {Call("decl", F, a, p) : F \in SUBSET Flags, a \in {"q", "c", "qc", "arr"}, p \in BoolPositions}
     \cup {Call("defn", F, a, p) : F \in SUBSET Flags, a \in {"q", "qc"}, p \in BoolPositions}
@@ -78,6 +88,9 @@ Calls ==
     \cup {Call("project_z", {}, "q", p) : p \in BoolPositions}
     \cup {Call("h", Flags, "q", "stmt"), Call("reset", {}, "q", "stmt"),
           Call("barrier", {}, "q", "stmt"), Call("state_result", {}, "q", "stmt")}
+\* call sites used with the deep / decorated-with contexts
+DeepCalls == {Call("decl", F, "q", p) : F \in SUBSET Flags, p \in BoolPositions} \cup {Call("h", Flags, "q", "stmt")}
+CallsOf(c) == IF c \in BaseCtxs THEN Calls ELSE DeepCalls
 NoCall == Call("none", {}, "c", "stmt")
 Exempt == {"barrier", "state_result"}
 HasQubit(a) == a \in {"q", "qc", "arr"}
@@ -88,7 +101,7 @@ ConstructCalls == {NoCall, Call("h", Flags, "q", "stmt"), Call("decl", {}, "q", 
                    Call("decl", {"D"}, "qc", "nested_arg"), Call("project_z", {}, "q", "if_cond")}
 
 Case(ctx, call, con) == [ctx |-> ctx, call |-> call, con |-> con]
-ConstructCtxs == IF CrossConstructs THEN Ctxs ELSE DecoCtxs \cup {w \in WithCtxs : Len(w.inner) <= 2}
+ConstructCtxs == IF CrossConstructs THEN Ctxs ELSE DecoCtxs \cup {w \in WithCtxs : Len(w.levels[1]) <= 2}
 \* the table: every context x every call site, plus ConstructCtxs x ConstructCalls x ConstructKinds
 
 \* ---- the verdict rule of the property --------------------------------------------
@@ -98,7 +111,7 @@ CallBad(cs) == /\ cs.call.kind # "none"
                /\ ~(CtxFlags(cs.ctx) \subseteq cs.call.flags)
 Missing(cs) == CtxFlags(cs.ctx) \ cs.call.flags
 \* flags required by the innermost context alone (differs from CtxFlags for nested `with`)
-OwnFlags(c) == IF c.kind = "deco" THEN c.deco ELSE StackFlags(c.inner)
+OwnFlags(c) == IF Len(c.levels) = 0 THEN c.deco ELSE StackFlags(c.levels[Len(c.levels)])
 \* which requirement a bad call violates: that of its own block, or only one inherited
 \* from the enclosing `with`
 Scope(cs) == IF Missing(cs) \cap OwnFlags(cs.ctx) # {} THEN "own" ELSE "outer"
@@ -111,15 +124,12 @@ Reasons(cs) == (IF CallBad(cs) THEN {"Call"} ELSE {}) \cup (IF LoopBad(cs) THEN 
 
 \* functions of the compiled module and the `unitary` metadata they must carry:
 \* the decorated function itself, and one function per `with` block (own stack flags;
-\* for the inner block of a nested `with` any value between its own flags and the
-\* union with the enclosing block is admitted - the property does not fix it)
+\* for a block inside another context any value between its own flags and the
+\* union with the enclosing contexts is admitted - the property does not fix it)
 MetaExpected(cs) ==
-    CASE cs.ctx.kind = "deco" -> [test |-> FlagValue(cs.ctx.deco), blocks |-> <<>>]
-      [] cs.ctx.kind = "with" -> [test |-> 0, blocks |-> <<<<FlagValue(StackFlags(cs.ctx.inner)), FlagValue(StackFlags(cs.ctx.inner))>>>>]
-      [] cs.ctx.kind = "nested" ->
-            [test |-> 0,
-             blocks |-> << <<FlagValue(StackFlags(cs.ctx.outer)), FlagValue(StackFlags(cs.ctx.outer))>>,
-                           <<FlagValue(StackFlags(cs.ctx.inner)), FlagValue(CtxFlags(cs.ctx))>> >>]
+    [test |-> FlagValue(cs.ctx.deco),
+     blocks |-> [n \in 1..Len(cs.ctx.levels) |->
+                    <<FlagValue(StackFlags(cs.ctx.levels[n])), FlagValue(LevelFlags(cs.ctx, n))>>]]
 
 \* ---- the checker as a walk over sites ---------------------------------------------
 Sites(cs) == (IF cs.call.kind # "none" THEN {"call"} ELSE {})
@@ -139,14 +149,14 @@ vars == <<phase, cs, todo, verdict>>
 
 \* The table is enumerated by two choice actions (context, then sites) so that TLC
 \* explores it in parallel; "check" is the phase in which the checker walks.
-Unset == Case(Ctx("unset", {}, FALSE, <<>>, <<>>), NoCall, "none")
+Unset == Case(Ctx("unset", {}, FALSE, <<>>), NoCall, "none")
 Init == phase = "ctx" /\ cs = Unset /\ todo = {} /\ verdict = "pending"
 ChooseContext == /\ phase = "ctx"
                  /\ \E c \in Ctxs : cs' = [cs EXCEPT !.ctx = c]
                  /\ phase' = "sites"
                  /\ UNCHANGED <<todo, verdict>>
 ChooseSites == /\ phase = "sites"
-               /\ \/ \E k \in Calls : cs' = Case(cs.ctx, k, "none")
+               /\ \/ \E k \in CallsOf(cs.ctx) : cs' = Case(cs.ctx, k, "none")
                   \/ /\ cs.ctx \in ConstructCtxs
                      /\ \E k \in ConstructCalls, y \in ConstructKinds : cs' = Case(cs.ctx, k, y)
                /\ todo' = Sites(cs')
@@ -193,5 +203,8 @@ OnlyDaggerRestrictsConstructs == (phase = "check" /\ "D" \notin CtxFlags(cs.ctx)
 PositionIrrelevantForCalls == (phase = "check" /\ cs.call.pos \in BoolPositions) => \A p \in BoolPositions :
     (CallBad(cs) <=> CallBad([cs EXCEPT !.call.pos = p]))
 DoubleDaggerCancels == (phase = "check" /\ cs.ctx.kind = "with") =>
-    StackFlags(cs.ctx.inner \o <<"dagger", "dagger">>) = StackFlags(cs.ctx.inner)
+    StackFlags(cs.ctx.levels[1] \o <<"dagger", "dagger">>) = StackFlags(cs.ctx.levels[1])
+\* an enclosing context never weakens the requirement
+EnclosingOnlyAdds == phase = "check" => \A n \in 1..Len(cs.ctx.levels) :
+    LevelFlags(cs.ctx, n - 1) \subseteq LevelFlags(cs.ctx, n)
 =============================================================================
